@@ -327,7 +327,13 @@ func execC01(c CaseC01) *Outcome {
 					}
 					p.Disk.ClearPutFaults()
 				}
-				if d.Wait {
+				if d.Wait && s.OpLog().Values().Len() != s.OpLog().Len() {
+					// after a bounded restart the replica's log has a hole: older entries that arrive below it are
+					// held but are neither heads (the newest entry's skip references name them) nor reachable through
+					// parent links, so the listing does not cover what is held; "the state of the entries it holds" has
+					// no single reading until the hole is filled (the final phase does that, and is checked)
+					o.Labels = append(o.Labels, "held-log-not-fully-listed(hole after a bounded restart)")
+				} else if d.Wait {
 					// at rest: what the replica shows is the state of exactly the entries it holds
 					if out := viewIsReplay(s, c.Type, fmt.Sprintf("observer %d step %d (%s, at rest)", oi, si, d.Route)); out != nil {
 						return out
